@@ -639,3 +639,11 @@ package logger
 //@   modifies region(originMem), ghostfields(held), ghostfields(owned), ghostfields(jsonLine), wN, wErr, wCalls
 //@   ensures gate: wCalls == old(wCalls) + ite(l.h.Enabled(level), 1, 0)
 //@   ensures again: loggerOK(l)
+
+// the pools' New functions establish the pool invariants that Get assumes
+//@ func init$1
+//@   modifies nothing
+//@   ensures item: typeIs(result, *[]byte) && fresh(payload(result, *[]byte)) && len(*payload(result, *[]byte)) == 0 && cap(*payload(result, *[]byte)) <= 16384
+//@ func init$2
+//@   modifies nothing
+//@   ensures item: typeIs(result, *[]byte) && fresh(payload(result, *[]byte)) && len(*payload(result, *[]byte)) == 0 && arr(*payload(result, *[]byte)) != nil
